@@ -465,6 +465,49 @@ func (c *caseRun) setLive(id string, t synctree.SyncTree) {
 	c.w.live[id] = t
 }
 
+// withRace runs f (a put / fetch / fetch-finish of object k) with a deletion of k landing at the schedule
+// point right before the storage-creating write transaction is opened (hook objecttree.VerifBeforeCreateTx),
+// i.e. after every tombstone check that is made outside that transaction: a remote author records the
+// deletion, the local settings object receives it, and (mostly) the deletion worker runs. The injected
+// steps are ordinary steps (correspondence + oracle); the racing operation linearises at its transaction,
+// so the model sees it after them.
+func (c *caseRun) withRace(k int, f func()) {
+	id := c.w.objs[k].id
+	fired := false
+	snap, worker := c.r.Chance(30), c.r.Chance(75)
+	objecttree.VerifBeforeCreateTx = func(treeId string) {
+		if treeId != id || fired {
+			return
+		}
+		fired = true
+		c.doRec(0, []int{k}, snap)
+		for i := 0; i < 16 && c.missing(0) > 0; i++ {
+			c.doDeliver(0, true)
+		}
+		if worker {
+			c.doRun()
+		}
+	}
+	defer func() { objecttree.VerifBeforeCreateTx = nil }()
+	f()
+	if fired {
+		c.r.Count("race.fired")
+	} else {
+		c.r.Count("race.not_reached")
+	}
+}
+
+// missing counts the settings changes of remote p the local settings tree lacks.
+func (c *caseRun) missing(p int) int {
+	n := 0
+	for _, ch := range c.rawOf(c.w.remoteSettings[p]) {
+		if !c.w.settings.HasChanges(ch.Id) {
+			n++
+		}
+	}
+	return n
+}
+
 func (c *caseRun) doPut(k int) {
 	o := c.w.objs[k]
 	t, err := synctree.PutSyncTree(ctx, o.payload, c.w.buildDeps())
